@@ -2909,3 +2909,161 @@ func (c *Ctx) copyLock(rule string) (n, nviol int) {
 	c.Trivial(rule, "scan", token.NoPos, fmt.Sprintf("%d methods on lock-holding types, all with pointer receivers", n))
 	return
 }
+
+// ---------------------------------------------------------------------------------------------
+// ENTRY-NONNIL (C02): the single-tree entry point returns either an error or a tree. FirstTree of
+// the Nexus / PhyloXML / Nextstrain documents returns nil when the document holds no tree, so every
+// use of it in ReadTreeReader is either made under `doc.HasTrees` or followed by a nil test of the
+// result that returns an error: a document without a tree must not come back as (nil, nil).
+func (c *Ctx) entryNonNil(rule string) int {
+	fi := c.Func("io/utils", "", "ReadTreeReader")
+	if fi == nil {
+		return 0
+	}
+	clause := "reading terminates and either reports an error or delivers trees"
+	info := fi.Pkg.TypesInfo
+	n := 0
+	walkStack(fi.Decl.Body, func(m ast.Node, stack []ast.Node) bool {
+		as, ok := m.(*ast.AssignStmt)
+		if !ok || len(as.Rhs) != 1 {
+			return true
+		}
+		call, ok := unparen(as.Rhs[0]).(*ast.CallExpr)
+		if !ok {
+			return true
+		}
+		g := calleeOf(info, call)
+		if g == nil || g.Name() != "FirstTree" || !inRepo(g) {
+			return true
+		}
+		n++
+		pk := strings.TrimPrefix(g.Pkg().Path(), modPath+"/")
+		key := "io/utils.ReadTreeReader/" + pk + ".FirstTree"
+		res := identObj(info, as.Lhs[0])
+		// (a) under doc.HasTrees
+		guarded := false
+		if conds, okc := c.pathConds(info, fi.Decl.Body, as, false); okc {
+			for _, cd := range conds {
+				if cd.Expr != nil && !cd.Neg {
+					if sel, ok := unparen(cd.Expr).(*ast.SelectorExpr); ok && sel.Sel.Name == "HasTrees" {
+						guarded = true
+					}
+				}
+			}
+		}
+		// (b) followed, in the same statement list, by `if res == nil { return ..., <non-nil error> }`
+		if !guarded && res != nil && len(stack) > 0 {
+			var list []ast.Stmt
+			switch b := stack[len(stack)-1].(type) {
+			case *ast.BlockStmt:
+				list = b.List
+			case *ast.CaseClause:
+				list = b.Body
+			}
+			after := false
+			for _, s := range list {
+				if s == ast.Stmt(as) {
+					after = true
+					continue
+				}
+				if !after {
+					continue
+				}
+				if is, ok := s.(*ast.IfStmt); ok {
+					if to, nonNil, ok := nilTest(info, is.Cond); ok && to == res && !nonNil && c.leaves(info, is.Body.List) {
+						guarded = true
+					}
+				}
+			}
+		}
+		if guarded {
+			c.OK(rule, key, as.Pos(), "a document without a tree is turned into an error")
+		} else {
+			c.Violation(rule, key, as.Pos(), "the result of FirstTree(), nil when the document holds no tree, is neither taken under HasTrees nor tested for nil before being returned: a well-formed document without a tree comes back as (nil, nil), neither an error nor a tree").Clause = clause
+		}
+		return true
+	})
+	return n
+}
+
+// ---------------------------------------------------------------------------------------------
+// PEEK-IDX (C02): bufio.Reader.Peek(n) returns fewer than n bytes together with an error (io.EOF on
+// short input). Indexing its result is only safe where the error is known to be nil or the length
+// has been tested; tolerating io.EOF and indexing anyway panics on empty / one-byte input.
+func (c *Ctx) peekIdx(rule string, pkgs []*packages.Package) (n, nviol int) {
+	clause := "never panics"
+	for _, p := range pkgs {
+		info := p.TypesInfo
+		for _, f := range p.Syntax {
+			walkStack(f, func(m ast.Node, stack []ast.Node) bool {
+				as, ok := m.(*ast.AssignStmt)
+				if !ok || len(as.Lhs) != 2 || len(as.Rhs) != 1 {
+					return true
+				}
+				call, ok := unparen(as.Rhs[0]).(*ast.CallExpr)
+				if !ok {
+					return true
+				}
+				g := calleeOf(info, call)
+				if g == nil || g.Pkg() == nil || g.Pkg().Path() != "bufio" || g.Name() != "Peek" {
+					return true
+				}
+				buf, errv := identObj(info, as.Lhs[0]), identObj(info, as.Lhs[1])
+				if buf == nil {
+					return true
+				}
+				n++
+				body := enclosingBody(append(append([]ast.Node{}, stack...), m))
+				if body == nil {
+					return true
+				}
+				key := c.enclosingFuncName(info, stack) + "/Peek→" + buf.Name()
+				bad := token.NoPos
+				ast.Inspect(body, func(q ast.Node) bool {
+					ie, ok := q.(*ast.IndexExpr)
+					if !ok || identObj(info, ie.X) != buf || ie.Pos() < as.End() {
+						return true
+					}
+					conds, okc := c.pathConds(info, body, ie, false)
+					safe := false
+					if okc {
+						for _, cd := range flattenConds(conds) {
+							if cd.Expr == nil {
+								continue
+							}
+							// err == nil on the path (or `err != nil` negated by an early return)
+							if to, nonNil, ok := nilTest(info, cd.Expr); ok && errv != nil && to == errv && (nonNil == cd.Neg) {
+								safe = true
+							}
+							// a length test on the buffer
+							if strings.Contains(c.canon(info, cd.Expr, nil), "len("+buf.Name()+")") {
+								safe = true
+							}
+						}
+					}
+					// short-circuit in the same expression: len(buf) >= 2 && buf[0] == ...
+					if !safe && !bad.IsValid() {
+						bad = ie.Pos()
+					}
+					return true
+				})
+				if bad.IsValid() {
+					nviol++
+					c.Violation(rule, key, bad, fmt.Sprintf("%s holds the result of Peek, which is shorter than asked when the input is (io.EOF is returned with it); it is indexed on a path where neither `%s == nil` nor a test of len(%s) holds: empty or one-byte input panics with index out of range", buf.Name(), errName(errv), buf.Name())).Clause = clause
+				} else {
+					c.OK(rule, key, as.Pos(), "the peeked bytes are indexed only where the error is nil or the length is tested")
+				}
+				return true
+			})
+		}
+	}
+	c.Trivial(rule, "scan", token.NoPos, fmt.Sprintf("%d Peek results examined", n))
+	return
+}
+
+func errName(o types.Object) string {
+	if o == nil {
+		return "err"
+	}
+	return o.Name()
+}
